@@ -1,56 +1,90 @@
 #!/venv/bin/python
 """Confirm a seeded change and run the registered quick checks against it.
 
-  seeded.py <source dir with patch.diff, demo.py, meta.json> <id> [props...]
+  seeded.py [--in-repo] <source dir with patch.diff, demo.py, meta.json> <id> [props...]
 
-Protocol (all against /repo itself, undone afterwards):
+Protocol:
   apply patch -> demo must FAIL -> baseline suite must still pass ->
   quick check of the target property (and any others given) -> undo ->
   demo must PASS.  Results go to /verif/seeded/<id>/meta.json.
+
+Default mode works on a scratch copy of /repo's working tree under /dev/shm
+(removed afterwards) with UNYT_SRC pointing at it, so that several seeded
+changes can be tried in parallel and a background soak that reads /repo is
+not disturbed.  --in-repo is the literal protocol: `git -C /repo apply`,
+run, `git -C /repo checkout -- .`.  In both modes the checks write their
+evidence and replay files to a scratch VERIF_OUT, never to /verif/evidence.
 """
 import json, os, shutil, subprocess, sys, time
 
-src, sid = sys.argv[1], sys.argv[2]
+args = sys.argv[1:]
+in_repo = False
+if args and args[0] == "--in-repo":
+    in_repo = True
+    args = args[1:]
+src, sid = args[0], args[1]
 dst = f"/verif/seeded/{sid}"
 os.makedirs(dst, exist_ok=True)
 for f in ("patch.diff", "demo.py", "meta.json"):
     if os.path.exists(os.path.join(src, f)) and os.path.abspath(src) != os.path.abspath(dst):
         shutil.copy(os.path.join(src, f), os.path.join(dst, f if f != "meta.json" else "meta_agent.json"))
 agent = json.load(open(os.path.join(dst, "meta_agent.json"))) if os.path.exists(os.path.join(dst, "meta_agent.json")) else {}
-props = sys.argv[3:] or [agent.get("property")]
+props = args[2:] or [agent.get("property")]
+
 
 def sh(cmd, **kw):
     return subprocess.run(cmd, shell=True, capture_output=True, text=True, **kw)
 
-def demo():
-    p = sh(f"cd /repo && PYTHONPATH=/repo /venv/bin/python {dst}/demo.py")
+
+def demo(tree):
+    p = sh(f"cd {tree} && PYTHONPATH={tree} /venv/bin/python {dst}/demo.py", timeout=600)
     return p.returncode, (p.stdout + p.stderr)[-400:]
 
-assert sh("git -C /repo status --porcelain").stdout.strip() == "", "/repo not clean"
-log = {"commands": []}
-ap = sh(f"git -C /repo apply {dst}/patch.diff")
-if ap.returncode != 0:
-    ap = sh(f"git -C /repo apply --3way {dst}/patch.diff")
-    log["applied_with_3way"] = True
+
+out_dir = f"/dev/shm/seeded-out-{sid}"
+shutil.rmtree(out_dir, ignore_errors=True)
+log = {"mode": "in-repo" if in_repo else "scratch copy of /repo working tree + UNYT_SRC"}
+if in_repo:
+    assert sh("git -C /repo status --porcelain").stdout.strip() == "", "/repo not clean"
+    tree = "/repo"
+    ap = sh(f"git -C /repo apply {dst}/patch.diff")
+else:
+    tree = f"/dev/shm/seeded-tree-{sid}"
+    shutil.rmtree(tree, ignore_errors=True)
+    sh(f"rsync -a --exclude .git --exclude __pycache__ /repo/ {tree}/")
+    ap = sh(f"cd {tree} && git apply -p1 {dst}/patch.diff")
 log["apply_rc"] = ap.returncode
 log["apply_err"] = ap.stderr[-300:]
 res = {}
 try:
     if ap.returncode == 0:
-        rc, out = demo()
+        rc, out = demo(tree)
         log["demo_with_change"] = {"rc": rc, "tail": out}
-        b = sh("/venv/bin/python /verif/tools/baseline.py")
+        b = sh(f"/venv/bin/python /verif/tools/baseline.py {tree}")
         log["baseline_with_change"] = b.stdout.strip().splitlines()[-1] if b.stdout.strip() else b.stderr[-200:]
         log["baseline_ok"] = b.returncode == 0
         for p in props:
             t = time.time()
-            env = dict(os.environ, VERIF_STOP_ON_VIOLATION="1")
-            c = subprocess.run(f"cd /verif && /venv/bin/python check.py quick {p}", shell=True, capture_output=True, text=True, env=env)
-            lines = [l for l in c.stdout.splitlines() if l.startswith(("VIOLATION", "violation:", "KNOWN", "HARNESS")) or " quick:" in l]
+            env = dict(os.environ, VERIF_STOP_ON_VIOLATION="1", VERIF_OUT=out_dir, UNYT_SRC=tree)
+            c = subprocess.run(f"cd /verif && /venv/bin/python check.py quick {p}", shell=True, capture_output=True,
+                               text=True, env=env)
+            lines = [l for l in c.stdout.splitlines()
+                     if l.startswith(("VIOLATION", "violation:", "HARNESS", "regression:")) or " quick:" in l]
             res[p] = {"rc": c.returncode, "wall_s": round(time.time() - t), "lines": [l[:400] for l in lines[:8]]}
+            if c.returncode == 1:
+                for l in c.stdout.splitlines():
+                    if l.startswith("VIOLATION") and "replay=" in l:
+                        rp = l.split("replay=")[1].strip()
+                        if os.path.exists(rp):
+                            shutil.copy(rp, os.path.join(dst, f"caught-{p}.json"))
+                        break
 finally:
-    sh("git -C /repo checkout -- . && git -C /repo clean -fdq unyt")
-rc, out = demo()
+    if in_repo:
+        sh("git -C /repo checkout -- . && git -C /repo clean -fdq unyt")
+    else:
+        shutil.rmtree(tree, ignore_errors=True)
+    shutil.rmtree(out_dir, ignore_errors=True)
+rc, out = demo("/repo")
 log["demo_without_change"] = {"rc": rc, "tail": out}
 meta = {
     "id": sid, "property": agent.get("property"), "summary": agent.get("summary"),
@@ -61,8 +95,10 @@ meta = {
         "existing_suite_still_passes": log.get("baseline_ok"),
     },
     "checks_run": res, "caught_by": [p for p, r in res.items() if r["rc"] == 1],
-    "what_was_run": "tools/seeded.py: git -C /repo apply patch.diff; demo.py; tools/baseline.py; check.py quick <prop> (VERIF_STOP_ON_VIOLATION=1); git -C /repo checkout -- .; demo.py",
+    "what_was_run": "tools/seeded.py: apply patch.diff (" + log["mode"] + "); demo.py; tools/baseline.py (all 652 "
+                    "stable-pass tests must pass); check.py quick <prop> (VERIF_STOP_ON_VIOLATION=1); undo; demo.py",
     "log": log,
 }
 json.dump(meta, open(os.path.join(dst, "meta.json"), "w"), indent=1)
-print(sid, "confirmed:", meta["confirmed"], "caught_by:", meta["caught_by"], {p: (r["rc"], r["wall_s"]) for p, r in res.items()})
+print(sid, "confirmed:", meta["confirmed"], "caught_by:", meta["caught_by"],
+      {p: (r["rc"], r["wall_s"]) for p, r in res.items()})
